@@ -87,6 +87,53 @@ def warm():
     return 0 if ok else 2
 
 
+def fallback_judge(tier, results, log, wall):
+    """The c20 binary (judge and evidence writer) could not be built.  Judge the feature matrix here: a configuration that does
+    not build is a VIOLATION (same site|class key as the binary uses, so known_findings.json applies); if everything in the
+    matrix builds, the harness failure is ours: machinery error."""
+    vd = os.environ.get("VX_VERIF_DIR", ROOT)
+    known = []
+    try:
+        known = [k["key"] for k in json.load(open(os.path.join(vd, "known_findings.json"))) if k.get("status") == "known" and k.get("property") == "C20"]
+    except Exception:
+        pass
+    rdir = os.path.join(vd, "replays", "C20")
+    subprocess.run(["rm", "-rf", rdir]); os.makedirs(rdir, exist_ok=True)
+    os.makedirs(os.path.join(vd, "evidence"), exist_ok=True)
+    bad = [r for r in results if not r["build_ok"]]
+    bad.sort(key=lambda r: (len(r["features"]), r["base"]))
+    new, seen_known, n = 0, {}, 0
+    for r in bad:
+        name = "cargo features [%s]" % ",".join([r["base"]] + r["features"])
+        key = name + "|does-not-build"
+        if key in known:
+            seen_known[key] = 1; continue
+        new += 1
+        if new > 6: continue
+        n += 1
+        path = os.path.join(rdir, "%d.json" % n)
+        json.dump({"property": "C20", "tier": tier, "section": "feature configurations build and do not change behaviour (judged by the driver: the harness itself did not build)",
+                   "site": name, "class": "does-not-build", "detail": {"configuration": name, "error_in": r.get("error_in"), "errors": r.get("errors"), "stderr_tail": r.get("stderr_tail")}}, open(path, "w"), indent=1)
+        print("VIOLATION property=C20 replay=%s" % path)
+        print("  what: %s [does-not-build] :: %s" % (name, "; ".join(r.get("errors") or [])[:300]))
+    for k in seen_known: print("KNOWN-FINDING: property=C20 %s" % k)
+    merr = []
+    if new == 0:
+        merr = ["harness build failed although every configuration of the feature matrix builds (see %s)" % log]
+        print("MACHINERY-ERROR property=C20 " + merr[0])
+        subprocess.run("grep -E '^error' -A6 %s | head -40" % log, shell=True)
+    ev = {"property_id": "C20", "tier": tier, "seed": int(os.environ.get("VERIF_SEED", "0") or 0), "level": "exploration",
+          "coverage": {"evaluations": len(results), "distinct_nontrivial": len([r for r in results if r["features"]]),
+                       "rule": "FALLBACK: the harness binary did not build, so only the cargo feature matrix was explored (every configuration of the tier's list built from /repo's working tree); the lift/cast/approx sections did not run; non-trivial: a configuration with at least one optional feature",
+                       "samples": [{"configuration": "cargo features [%s]" % ",".join([r["base"]] + r["features"]), "build_ok": r["build_ok"]} for r in (bad[:2] + results[:1])],
+                       "exhaustive": False, "configurations": len(results), "built": len(results) - len(bad), "harness_build": "failed", "machinery_errors": merr,
+                       "known_findings_seen": seen_known, "new_violation_kinds": ["cargo features [%s]|does-not-build" % ",".join([r["base"]] + r["features"]) for r in bad][:20]},
+          "assumptions": ["cargo and rustc build each configuration faithfully"], "wall_s": round(wall, 1), "violations": new}
+    json.dump(ev, open(os.path.join(vd, "evidence", "C20.json"), "w"), indent=1)
+    print("C20 tier=%s (fallback judge) configurations=%d not-building=%d new_violations=%d exit=%d" % (tier, len(results), len(bad), new, 1 if new else 2))
+    return 1 if new else 2
+
+
 def main():
     args = sys.argv[1:]
     if args[:1] == ["--warm"]:
@@ -121,10 +168,10 @@ def main():
         az_build = "failed: the harness does not build with vek/az enabled; az cast section skipped, see the feature-matrix violations"
         with open(log, "a") as lf:
             b = subprocess.run(["cargo", "build", "--offline", "--release", "--bin", "c20"], cwd=os.path.join(ROOT, "harness"), env=env, stdout=lf, stderr=subprocess.STDOUT)
-    if b.returncode != 0:
-        print("MACHINERY-ERROR property=C20 harness build failed (see %s)" % log)
-        subprocess.run("grep -E '^error' -A6 %s | head -40" % log, shell=True)
-        sys.exit(2)
+    harness_ok = b.returncode == 0
+    # If the harness does not build at all, the reason may be the property itself: vek does not compile under the harness's own
+    # feature set (std, rgb, rgba, uv, uvw, vec8..vec64, mint, bytemuck).  The matrix below is then still run and judged by
+    # fallback_judge(); only when every configuration of the matrix builds is the harness failure a machinery error.
     # 2. the feature matrix
     cfgs = configs(tier)
     t0 = time.time()
@@ -165,6 +212,8 @@ def main():
            "harness_az_build": az_build, "toolchain": subprocess.run(["rustc", "--version"], stdout=subprocess.PIPE, text=True).stdout.strip()}
     fpath = os.path.join(BUILD, "c20_features.json")
     json.dump(out, open(fpath, "w"))
+    if not harness_ok:
+        sys.exit(fallback_judge(tier, results, log, time.time() - t0))
     env2 = dict(os.environ, VX_C20_FEATURES=fpath)
     rc = subprocess.run([os.path.join(BUILD, "target", "release", "c20"), "--tier", tier] + passthru, env=env2).returncode
     sys.exit(rc)
